@@ -218,6 +218,11 @@ func (f *FormattedProvider) GetOpenStores() []spi.Store {
 // Close closes all stores created under this store provider.
 // For persistent store implementations, this does not delete any data in the underlying stores.
 func (f *FormattedProvider) Close() error {
+	// The stores of the closed provider must not be handed out again by OpenStore.
+	f.lock.Lock()
+	f.openStores = make(map[string]*formatStore)
+	f.lock.Unlock()
+
 	err := f.provider.Close()
 	if err != nil {
 		return fmt.Errorf("failed to close underlying provider: %w", err)
